@@ -34,12 +34,20 @@ def lock_withs(A, func, ctx):
     exprs = [item.context_expr for w in withs for item in w.items]
     at = A.sym.terms_at(func, ctx.recv, exprs) if exprs else {}
     out = {}
+    LOCK_INFO.clear()
     for w in withs:
         for item in w.items:
             for t in at.get(id(item.context_expr), []):
+                acquire = None
+                if t[0] == 'method' and t[2] == 'acquire':
+                    acquire, t = t[3], t[1]   # `with lock.acquire(...)`: the lock is held inside the block as well
                 if t[0] == 'call' and t[1].split('.')[-1] in ('FileLock', 'SoftFileLock') and t[2]:
                     out[w] = t[2][0]
+                    LOCK_INFO[id(w)] = {'with': w, 'ctor_kwargs': {x[1]: x[2] for x in t[2] if x[0] == 'kw'}, 'acquire_args': acquire, 'class': t[1].split('.')[-1]}
     return out
+
+
+LOCK_INFO = {}
 
 
 def held_withs(node, sites):
@@ -75,11 +83,13 @@ def run(A, R: Report, thorough: bool):
     R.rule('R15.1', 'every save_value call is inside a `with <FileLock of the cache file>` region', floor=1)
     R.rule('R15.2', 'a load_value guarded by an existence test holds the key lock (writers truncate in place under that lock)', floor=2)
     R.rule('R15.3', 'all entry points lock the same function of the cache file path', floor=2)
+    R.rule('R15.4', 'the key lock is a blocking, per-thread, OS-level FileLock (no shared re-entrant instance, no bounded or non-blocking acquisition)', floor=0)
     lock_terms = {}
     for f, ci in eps:
         ctx = Ctx(f, ('inst', ci))
         lw = lock_withs(A, f, ctx)
-        if any(isinstance(n, ast.Call) and isinstance(n.func, ast.Attribute) and n.func.attr in ('acquire', 'release') for n, _o, _s in A.nodes_with_sites(f)):
+        with_items = {id(item.context_expr) for n, _o, _s in A.nodes_with_sites(f) if isinstance(n, (ast.With, ast.AsyncWith)) for item in n.items}
+        if any(isinstance(n, ast.Call) and isinstance(n.func, ast.Attribute) and n.func.attr in ('acquire', 'release') and id(n) not in with_items for n, _o, _s in A.nodes_with_sites(f)):
             R.undecided('R15.1', f.short, 'explicit acquire()/release(): lock regions not tracked', where=where(f))
             continue
         cfg = A.cfg(f)
@@ -100,7 +110,9 @@ def run(A, R: Report, thorough: bool):
                             ex_calls.append(e)
                 construct = f'{f.short}: `{src(n)[:50]}`'
                 if not ex_calls:
-                    R.undecided('R15.2', construct, 'no existence test found among the guards of the load', where=where(f, n))
+                    # a load that is not guarded by an existence test still reads a file a writer may be truncating
+                    R.check(bool(held), 'R15.2', construct, key_of('unlocked-load', f.short), 'the load holds the key lock',
+                            'the cache file is read without holding the key\'s lock: a concurrent (forced) writer truncating the file makes this call fail or return a partial value', where=where(f, n))
                     continue
                 for e in ex_calls:
                     ew = [w for w in held_withs(e, sites) if w in lw]
@@ -113,6 +125,27 @@ def run(A, R: Report, thorough: bool):
                             witness=[f'exists at L{e.lineno} locks={[w.lineno for w in ew]}', f'load at L{n.lineno} locks={[w.lineno for w in held]}'], where=where(f, n))
         terms = {pretty(t) for t in lw.values() if t is not None}
         lock_terms[f.short] = terms
+        for w in lw:
+            info = LOCK_INFO.get(id(w))
+            if info is None:
+                continue
+            problems = []
+            kw = info['ctor_kwargs']
+            if info['class'] != 'FileLock':
+                problems.append(f'{info["class"]} is not an OS-level lock')
+            if kw.get('thread_local', ('lit', True)) != ('lit', True) or kw.get('is_singleton', ('lit', False)) != ('lit', False):
+                problems.append('the lock object is shared between threads (thread_local=False / is_singleton=True): it is re-entrant, so threads of one process do not exclude each other')
+            if 'timeout' in kw and kw['timeout'] not in (('lit', -1), ('lit', None)):
+                problems.append('bounded lock acquisition (timeout): a waiting caller fails instead of waiting for the writer')
+            if kw.get('blocking', ('lit', True)) != ('lit', True):
+                problems.append('non-blocking lock')
+            acq = info['acquire_args']
+            if acq is not None:
+                akw = {x[1]: x[2] for x in acq if x[0] == 'kw'}
+                pos = [x for x in acq if x[0] != 'kw']
+                if akw.get('blocking', ('lit', True)) != ('lit', True) or ('timeout' in akw and akw['timeout'] not in (('lit', -1), ('lit', None))) or pos:
+                    problems.append('non-blocking / bounded acquire(): a caller that does not get the lock reports a completely stored entry as missing (or fails) because another caller holds the lock')
+            R.check(not problems, 'R15.4', f'{f.short}: lock at L{w.lineno}', key_of('lock-config', f.short, sorted(problems)), 'blocking, per-thread, OS-level lock', '; '.join(problems), where=where(f, w))
     allt = set()
     for k, v in lock_terms.items():
         allt |= v
